@@ -43,7 +43,8 @@ from common import *
 
 PROP = "C16"
 # the specification as the code is / with the three modelled defects repaired
-CODE = dict(ChecksInGroup=False, Refilter=False, NextBounded=False)
+# the tree carries the NextBounded and ChecksInGroup repairs (fix: C16)
+CODE = dict(ChecksInGroup=True, Refilter=False, NextBounded=True)
 FIXED = dict(ChecksInGroup=True, Refilter=True, NextBounded=True)
 GROUP_FILTERS = {"FilterAutoTx", "FilterCanceledTx", "FilterEmptyTx", "FilterHealth",
                  "FilterOutGroup", "FilterQueuedTx", "FilterAutoCanceledTx"}
@@ -451,6 +452,7 @@ def check(tier):
                     tot["cases"] += s["cases"]
                     tot["mismatches"] += s["mismatches"]
                     tot["broken"] += s.get("broken", 0)
+                    tot["retried"] = tot.get("retried", 0) + s.get("retried", 0)
                     tot["samples"] += s.get("mismatch_samples", [])[:3]
                 return tot
 
@@ -480,6 +482,7 @@ def check(tier):
             real_streams=s_st["cases"], tcp_clients=s_tcp["cases"], lookup_lists=s_lk["cases"],
             tlc_generated_behaviours=s_rp["cases"], behaviours_that_broke_the_debugger=s_rp["broken"] + s_st.get("broken", 0),
             attack_schedules=s_rp["attacks"],
+            cases_retried_after_a_stall=s_rp.get("retried", 0) + s_st.get("retried", 0),
             fwd_back_pairs=cnt.get("fwdback", 0), imports=cnt.get("import", 0),
             import_touched_marker_differences=marker,
             violations_by_formula=dict(stats["viol"]), violations_by_signature=dict(stats["sigs"]),
